@@ -1411,11 +1411,9 @@ impl KotoVm {
                             }
                         }
                         Some(KIteratorOutput::Error(error)) => {
-                            // Keep the error kind of a timeout so that it stays uncatchable
-                            if matches!(error.error, ErrorKind::Timeout(_)) {
-                                return Err(error);
-                            }
-                            return runtime_error!(error.to_string());
+                            // Pass the error on unchanged, so that a thrown value keeps its type
+                            // (and a timeout stays uncatchable)
+                            return Err(error);
                         }
                         None => None,
                     }
